@@ -3,7 +3,7 @@ META = dict(
     rule=('executions = (copy_and_verify variant, source content/placement, adversary script); variants: copy_and_verify on primitive value, on T* (5 pointee types), '
           'on struct pointer, struct value, fixed array (verifiers taking their parameter by value and by const reference / const auto&); copy_and_verify_range (char/short/int/long x counts 1-4); copy_and_verify_string with unique_ptr<char[]>, '
           'unique_ptr<const char[]> and std::string verifiers (lengths 0-3, interior and ending on the last byte of the region); copy_and_verify_address / '
-          '_buffer_address; copy_memory_or_deny_access; narrowing loads under an ABI whose int / short are wider than the application\'s (cell rewritten between the range check and the conversion; the application must get a value the cell held that fits, or an abort); and the same range / pointer / address / buffer-address / string variants with a RECEIVER THAT IS A POINTER CELL IN SANDBOX MEMORY '
+          '_buffer_address; copy_memory_or_deny_access; narrowing loads under an ABI whose int / short are wider than the application\'s (cell rewritten between the range check and the conversion; the application must get a value the cell held that fits, or an abort); ATOMIC EQUIVALENCE of single-cell copies (13 primitive types incl. bool, 4 access paths): the outcome under the adversary - abort or the bytes received - must equal the outcome of the same call on a still cell holding one of the contents the cell held; and the same range / pointer / address / buffer-address / string variants with a RECEIVER THAT IS A POINTER CELL IN SANDBOX MEMORY '
           '(tainted_volatile<T*>), where the adversary may also re-point the cell (to a second object, to the last element of the region, to null) between RLBox\'s reads of it: the '
           'verifier must get nothing, or content read from an address the cell held, or an address the cell held whose checked extent lies inside the region. A script is a set of at most 2 (thorough: 3) events (read-point index, mutation) with mutation in {lengthen, '
           'NUL at 0, NUL in the middle, remove every NUL to the end of the region, flip all, flip first byte, overwrite}; all scripts over all hooked read points are '
